@@ -4,7 +4,8 @@ from gateprops import run_gate_check, oracle_c01
 PROP = "C01"
 # the coupled-cluster ansatz (qUCC.as_matrix) is proved unitary in the files of C20 (C20_qucc_unitary*, C20_ansatz_unitary_conserves_N):
 # obligations of this check as well
-LEAN_FILES = ["QibProofs/Properties/C01.lean", "QibProofs/Properties/C01Tree.lean", "QibProofs/Properties/C20.lean"]
+LEAN_FILES = ["QibProofs/Properties/C01.lean", "QibProofs/Properties/C01Tree.lean", "QibProofs/Properties/C20.lean",
+              "QibProofs/Properties/C01Ctor.lean"]      # constructors / binding methods: what CAN be constructed (stage props/c01_ctor.py)
 GEN = ("gates", "pauli", "vqe")
 DRIVER = "drv_gate"
 LEVEL_TEXT = ("Lean 4 theorems over (a) the leaf closed forms regenerated from gates.py by the translator and (b) combinators for "
@@ -28,3 +29,6 @@ def run(rep, tier, rng, drv):
     pauliflags.run_pauli_flags(rep, tier, rng, "C01")
     import flagstages
     flagstages.run_qucc_unitary(rep, tier, rng)
+    # what CAN be constructed: constructors and binding methods against the model of QibModel/GateCtor.lean (theorems: C01Ctor.lean)
+    from props import c01_ctor
+    c01_ctor.run_stage(rep, tier, rng)
